@@ -12,9 +12,10 @@ package proxy
 // can time out before its request reaches the handler), so this variant asserts
 // the coarse rules only:
 //
-//   C10.net-timeout-hang      ServerPool.handle did not return within
-//                             maxAttempts*(timeout + longest back-off) + 1500 s (allowance for
-//                             scheduler stalls) of simulated time although the pool has a timeout
+//   C10.net-timeout-hang      an attempt the backend never answers was not given up within the pool timeout
+//                             + 1500 s (allowance for scheduler stalls), or a call that ended with a success
+//                             returned later than one attempt's time + 1500 s after its last attempt reached
+//                             the backend (no upper bound is assumed for a back-off)
 //   C10.timeout-not-408       no attempt seen by the backend got an answer (stalled backend), but
 //                             the client does not get result timeout / 408
 //   C10.final-outcome         without a pool timeout: the client's result/status/body is not the
@@ -142,7 +143,10 @@ func c10ExecNet(r *sim.Run, sc *c10Scenario) {
 		switch script.Kind {
 		case "hang":
 			r.Fault("backend-stall")
-			if wait(3 * time.Hour) {
+			att.hangs = true
+			ok := wait(3 * time.Hour)
+			att.end = r.Now()
+			if ok {
 				att.kind = "hung-3h"
 				note("%s.a%d backend stalled for 3h, peer still there", st.name, idx)
 				return
@@ -267,7 +271,7 @@ func c10ExecNet(r *sim.Run, sc *c10Scenario) {
 		px.Close()
 	}()
 
-	var sawTimeout408, sawReset503, sawRetrySuccess, sawBodyCut, sawStreamOK, sawStreamBig, sawStreamCutByBackend bool
+	var sawTimeout408, sawReset5xx, sawRetrySuccess, sawBodyCut, sawStreamOK, sawStreamBig, sawStreamCutByBackend bool
 
 	finish := func(st *c10Req, result string, status int, body string, rerr error, hasResp bool, dur time.Duration, pnc interface{}, stack string) {
 		n := len(st.atts)
@@ -280,21 +284,42 @@ func c10ExecNet(r *sim.Run, sc *c10Scenario) {
 			return
 		}
 		T := ref.timeout
-		bound := 1500 * time.Second
-		for i := 0; i < maxAOf(st); i++ {
-			if T > 0 {
-				bound += T
-			} else {
-				bound += time.Second
-				if i < len(st.op.Attempts) {
-					bound += time.Duration(st.op.Attempts[i].LatUs) * time.Microsecond
+		// Bounded liveness (allowance 1500 s for scheduler stalls). The statement puts no upper
+		// bound on a back-off, so the waits are taken as observed at the backend:
+		//  - an attempt the backend never answers is given up by the pool within the time-out;
+		//  - a call whose outcome is a success (no back-off after it) returns within one attempt's
+		//    time after its last attempt reached the backend.
+		allow := 1500 * time.Second
+		var lastEntry time.Duration
+		for i, a := range st.atts {
+			if a.entry > lastEntry {
+				lastEntry = a.entry
+			}
+			if a.hangs && T > 0 {
+				rel := a.end
+				if rel == 0 {
+					rel = r.Now() // the backend has not even noticed yet that the peer has gone
+				}
+				if rel-a.entry > T+allow {
+					r.Violate("C10.net-timeout-hang", "request %s attempt %d: reached the backend at %v, which never answers; the pool (timeout %v) held on to it until %v\n%s\nhistory: %s", st.name, i+1, a.entry, T, rel, describe(), history())
+					return
 				}
 			}
-			bound += ref.maxWait(i)
 		}
-		if dur > bound {
-			r.Violate("C10.net-timeout-hang", "request %s: ServerPool.handle returned after %v of simulated time; bound for maxAttempts=%d, timeout=%v is %v\n%s\nhistory: %s", st.name, dur, maxAOf(st), T, bound, describe(), history())
-			return
+		if result == "" && n > 0 {
+			one := T
+			if T == 0 {
+				one = time.Second
+				for _, a := range st.op.Attempts {
+					if d := time.Second + time.Duration(a.LatUs)*time.Microsecond; d > one {
+						one = d
+					}
+				}
+			}
+			if bound := lastEntry - st.callAt + one + allow; dur > bound {
+				r.Violate("C10.net-timeout-hang", "request %s: ServerPool.handle returned a success after %v of simulated time; its last attempt reached the backend %v after the call, bound %v (timeout=%v)\n%s\nhistory: %s", st.name, dur, lastEntry-st.callAt, bound, T, describe(), history())
+				return
+			}
 		}
 		leak := strings.Contains(body, "-attempt-") && !streamResp // a stream response is handed on as it comes
 		timeoutOK := T > 0 && result == "timeout" && hasResp && status == http.StatusRequestTimeout && !leak
@@ -357,8 +382,8 @@ func c10ExecNet(r *sim.Run, sc *c10Scenario) {
 			switch a.kind {
 			case "err":
 				answered++
-				if result == "serverError" && hasResp && status == http.StatusServiceUnavailable && !leak {
-					sawReset503 = true
+				if result == "serverError" && hasResp && status >= 500 && status <= 599 && !leak { // no document names the status
+					sawReset5xx = true
 					return
 				}
 			case "bodyerr":
@@ -530,8 +555,8 @@ func c10ExecNet(r *sim.Run, sc *c10Scenario) {
 	if sawTimeout408 {
 		r.Probe("c10.net.stalled_backend_408")
 	}
-	if sawReset503 {
-		r.Probe("c10.net.reset_503")
+	if sawReset5xx {
+		r.Probe("c10.net.reset_serverError_5xx")
 	}
 	if sawRetrySuccess {
 		r.Probe("c10.net.retry_success")
@@ -551,7 +576,7 @@ func c10ExecNet(r *sim.Run, sc *c10Scenario) {
 	if sawStreamCutByBackend {
 		r.Probe("c10.net.streamresp.backend_body_cut")
 	}
-	if sawTimeout408 || sawReset503 || sawRetrySuccess || sawBodyCut || (sawStreamOK && ref.timeout > 0) {
+	if sawTimeout408 || sawReset5xx || sawRetrySuccess || sawBodyCut || (sawStreamOK && ref.timeout > 0) {
 		r.Nontrivial()
 	}
 	var sig strings.Builder
